@@ -90,6 +90,8 @@ def generate(ctx):
                                  'max_model_analysis': 6 if not big else 1, 'lead': [[], [2], [3]][n % 3] if not big else [],
                                  'dense_analysis_model': not (c['M'] >= 20)}
             ctx.count('variant:base=%d,stacked=%d,rev=%d' % (v['base'], v['stacked'], v['rev']))
+        if c['spacing'] != 'equiangular_with_poles' and c['M'] >= 2:
+            yield 'jit_static', {'cfg': c, 'seed': int(rng.integers(0, 2 ** 31))}
         yield 'equiv', {'cfg': c, 'seed': int(rng.integers(0, 2 ** 31)), 'lead': [[], [2]][n % 2],
                         'variants': ([VARIANTS[0], VARIANTS[7], VARIANTS[4]] if big else VARIANTS if ctx.tier == 'thorough'
                                      else [VARIANTS[(n + k) % 8] for k in (0, 3, 5, 6)]),
@@ -97,6 +99,50 @@ def generate(ctx):
 
 
 # ---------------------------------------------------------------------------
+def r_jit_static(ctx, a):
+    """A sequence of calls in ONE process: the library's own jitted functions take `grid` as a static
+    argument, so two grids that differ only in the implementation / its options must not be confused by
+    the jit cache (they must compare and hash as different grids).  Same nodal input, reference then
+    fast then reference again; every result must have that grid's own layout and agree through E."""
+    import functools
+    from harness import util
+    util.setup_jax()
+    import jax, jax.numpy as jnp
+    from dinosaur import spherical_harmonic as sh
+    c = a['cfg']; rng = np.random.Generator(np.random.PCG64(a['seed']))
+    kw = dict(longitude_wavenumbers=c['M'], total_wavenumbers=c['L'], longitude_nodes=c['I'], latitude_nodes=c['J'],
+              latitude_spacing=c['spacing'], longitude_offset=c['offset'], radius=c['radius'])
+    gr = sh.Grid(spherical_harmonics_impl=sh.RealSphericalHarmonics, **kw)
+    gf = sh.Grid(spherical_harmonics_impl=sh.FastSphericalHarmonics, **kw)
+    gf2 = sh.Grid(spherical_harmonics_impl=functools.partial(sh.FastSphericalHarmonics, base_shape_multiple=4), **kw)
+    grids = [('real', gr), ('fast', gf), ('fast(base=4)', gf2), ('real', gr)]
+    ctx.oracle('grids with different transform implementations / options are different jit-static arguments',
+               bool(gr != gf and gf != gf2 and gr != gf2), None)
+    if tuple(gr.nodal_shape) != tuple(gf.nodal_shape):
+        ctx.count('jit_static:nodal shapes differ (no cache clash possible)'); return
+    u = rng.integers(-8, 9, size=(2,) + tuple(gr.nodal_shape)).astype(np.float64) / 8
+    v = rng.integers(-8, 9, size=(2,) + tuple(gr.nodal_shape)).astype(np.float64) / 8
+    ref = None
+    for name, g in grids:
+        if tuple(g.nodal_shape) != tuple(gr.nodal_shape):
+            uu, vv = pad(u, g.nodal_shape), pad(v, g.nodal_shape)
+        else:
+            uu, vv = u, v
+        vor, div = sh.uv_nodal_to_vor_div_modal(g, jnp.asarray(uu), jnp.asarray(vv))
+        vor = np.asarray(vor); div = np.asarray(div)
+        ok_shape = tuple(vor.shape[-2:]) == tuple(g.modal_shape)
+        ctx.oracle(f'uv_nodal_to_vor_div_modal returns the layout of ITS grid ({name}) in a call sequence', ok_shape,
+                   {'got': list(vor.shape), 'want': list(g.modal_shape)})
+        if not ok_shape: continue
+        if name == 'real':
+            if ref is None: ref = (vor, div)
+            else: ctx.oracle_close('reference result unchanged after fast calls', vor, ref[0], tol_rel=1e-12)
+        else:
+            sc = max(float(np.abs(ref[0]).max()), 1e-300)
+            ctx.oracle_close(f'{name} = E(reference) for uv_nodal_to_vor_div_modal in a call sequence',
+                             Pi(vor, c['M'], c['L']), ref[0], scale=sc, tol_rel=1e-10)
+
+
 def r_default_stacked(ctx, a):
     jax, jnp, sh, fourier, al = base.J_()
     for M in a['Ms']:
@@ -280,5 +326,5 @@ def r_equiv(ctx, a):
             ctx.oracle_close('uv_nodal_to_vor_div_modal: fast = E(real) (divergence)', np.asarray(vf[1]), E(np.asarray(vr[1]), M, L, fs), scale=sv)
 
 
-RUNNERS = {'default_stacked': r_default_stacked, 'related': r_related, 'layout': base.r_layout,
+RUNNERS = {'jit_static': r_jit_static, 'default_stacked': r_default_stacked, 'related': r_related, 'layout': base.r_layout,
            'transforms': base.r_transforms, 'equiv': r_equiv}
